@@ -959,7 +959,7 @@ func binForeignEngine(r *mon.Run, bin string) {
 		root := filepath.Join(r.Work, "binforeign", fmt.Sprint(i))
 		home := filepath.Join(root, "home")
 		os.MkdirAll(home, 0o700)
-		runForeignCase(r, binary{r, bin, home}, "binforeign", i, cases[ci], um+" (the harness's own)", filepath.Join(root, "t"), old.data)
+		runForeignCase(r, binary{r: r, path: bin, home: home}, "binforeign", i, cases[ci], um+" (the harness's own)", filepath.Join(root, "t"), old.data)
 		if ad := tree(home); len(ad) > 0 {
 			r.Violate("binforeign", i, "stray-file-created", fmt.Sprintf("runs with an explicit cache path created files under $HOME: %v", ad), nil)
 		}
